@@ -16,7 +16,16 @@
     restores the symbol, a parameter's state depends only on the calls made on it;
   * a parameter SHARED between slots of different declared ranges: the pinned `_set_parameter` makes it
     periodic over the intersection, whose span is not a period of every slot — the matrix changes sign
-    (theorem with the witness `BS(theta=x, phi_tl=x)`, `x = 3π`); the repaired rule is sound for every history.
+    (theorem with the witness `BS(theta=x, phi_tl=x)`, `x = 3π`); the repaired rule is sound for every history;
+  * EXPRESSION objects (`Model/C14Expr.lean`): the full language (`+ - * /`, integer powers of either sign, unary
+    minus, `sin cos exp sqrt acos`, `pi`; functions uninterpreted), `subs` then `float`, sessions of raw parameters
+    and Expression objects: a slot holding an Expression that was not given a value reads the expression at the
+    CURRENT values after every history (`expression_live`); `set_value` on the object freezes it to a (wrapped)
+    constant until `reset` (`expression_override_freezes`); Expressions of Expressions; bounds never touch the value;
+  * the SYMBOLIC branch of every leaf (`Model/C14Sym.lean`): entries as expressions over the slots' `spv`, evaluated
+    at any real values = documented matrix = numeric branch (`symbolic_bs` … `symbolic_pr`), `spv` evaluates to what
+    `float()` reads, base change of the ring-polymorphic definitions, `PBS`;
+  * `PS.max_error ≠ 0` stays in the documented family (`ps_max_error`); `compute_unitary(assign=…)` per leaf.
 -/
 import PercevalModel.Lemmas.C14Complex
 import PercevalModel.Lemmas.C14Life
@@ -422,6 +431,17 @@ theorem assign_is_prefix_of_sets (sound : Bool) (st : LStore) (c : Comp) (kv : L
         exec (sstep sound) st (pre.map fun o => SOp.par o.1 (.set o.2 false)) ∧
       ((sstep sound st (.assign c kv)).2 = none → pre = kv) ∧ ∀ o ∈ pre, o.1 ∈ vars st c :=
   assignRun_prefix sound (vars st c) st kv
+
+/-- `compute_unitary(assign=…)` on a leaf, code as it is: `PS` / `WP` / `HWP` / `QWP` / `PR` perform exactly
+`self.assign(assign)` first (so `assign_is_prefix_of_sets` applies), whereas `BS` IGNORES the argument: no
+parameter changes and nothing is raised, even for an unknown key or an unacceptable value.  In both cases the
+matrix is computed from the values the parameters hold after the call, so "the component reflects the current
+values of its parameters" is not contradicted — what `BS` breaks is the documented meaning of `assign`, which is
+outside the C14 statement (reported as an observation). -/
+theorem compute_unitary_assign (sound : Bool) (st : LStore) (c : Comp) (kv : List (String × ℚ)) :
+    computeAssign sound true st c kv = sstep sound st (.assign c kv) ∧
+      computeAssign sound false st c kv = (st, none) :=
+  ⟨rfl, rfl⟩
 
 /-- `copy()` of a parameter whose value is inside its bounds keeps value, bounds and flag; the copy is fixed
 exactly when the original was defined. -/
@@ -1180,6 +1200,19 @@ example :
     (symPS (.sub (.var "a") (.var "a")) 0 0).eval exI GQ.ofRat GQ.I (fun x => if x = "a" then some 5 else none)
       = some 1 ∧
     (symPS (.var "a") 0 0).eval exI GQ.ofRat GQ.I (fun x => if x = "a" then some 5 else none) = none := by
+  decide +kernel
+
+/-- `ps_max_error`: the hypotheses hold (`max_error = 1/10`, draw `-1/2`); `compute_unitary_assign`: on `BS` an
+unknown key passes silently and nothing changes, on the other leaves it is the `KeyError` of `assign`. -/
+example : (0 : ℝ) ≤ 1 / 10 ∧ |(-1 / 2 : ℝ)| ≤ 1 := by
+  constructor
+  · norm_num
+  · rw [abs_le]; constructor <;> norm_num
+
+example : (computeAssign true true exL ["a", "f"] [("zz", 1)]).2 = some .KeyError ∧
+    (computeAssign true false exL ["a", "f"] [("zz", 1), ("a", 9)]).2 = none ∧
+    ((computeAssign true false exL ["a", "f"] [("a", 9)]).1 "a") = some pFresh ∧
+    ((computeAssign true true exL ["a", "f"] [("a", 9)]).1 "a") = some ⟨some 0, some 4, true, true, some 1⟩ := by
   decide +kernel
 
 end PM.C14
